@@ -934,6 +934,9 @@ def main(d):
     with open(os.path.join(d, 'case.json')) as f:
         case = json.load(f)
     h = case['handler']
+    if h == 'c18nf':
+        from harness import c18
+        HANDLERS['c18nf'] = c18.replay_nonfinite
     if h == 'c14':
         HANDLERS['c14'] = replay_c14
     if h == 'c13':
